@@ -1062,6 +1062,11 @@ class Array(Taggable):
         """
         Returns a copy of *self* with *iaxis*-th axis tagged with *tags*.
         """
+        if not (-self.ndim <= iaxis < self.ndim):
+            raise IndexError(f"axis {iaxis} is out of bounds for array of "
+                             f"dimension {self.ndim}")
+        # the splice below is only right for a non-negative position
+        iaxis = iaxis % self.ndim
         new_axis = self.axes[iaxis].tagged(tags)
         if new_axis is not self.axes[iaxis]:
             return self.copy(
